@@ -65,13 +65,17 @@ structure Global where
   httpDetail : Option Detail := none
   deriving Repr, DecidableEq, Inhabited
 
+def sAll : Str := "all".toList
+def sPaths : Str := "paths".toList
+def sSummary : Str := "summary".toList
+
 /-- mirrors _configure_detail_level -/
 def configureDetail : DetailArg → Except Exc Detail
   | .none => pure .all                                   -- DEFAULT_LOG_DETAIL_LEVEL
   | .str s =>
-    if s = "all".toList then pure .all
-    else if s = "paths".toList then pure .paths
-    else if s = "summary".toList then pure .summary
+    if s = sAll then pure .all
+    else if s = sPaths then pure .paths
+    else if s = sSummary then pure .summary
     else throw (.py .valueError)
   | .int i => if i < 0 then throw (.py .valueError) else pure (.maxLen i.toNat)
   | .other => throw (.py .valueError)
